@@ -533,3 +533,88 @@ fn nth_arg(r: &mut Rng, remlen: usize, gentle: bool) -> u64 {
         _ => r.below(l / 4 + 2),
     }
 }
+
+/// C03W — window sweep: a bitset chunk whose interesting part is a 3-word window (random bits) plus a filler
+/// run that makes it a bitset; the front cursor is moved `a` set bits into the window and the back cursor `b`
+/// set bits into it (random pair per case), then **every** target in the window (±2) is tried with
+/// `advance_to` or with `advance_back_to` (one direction per case), each on a fresh clone, followed by
+/// `size_hint`, `next`, `next_back`.
+pub fn gen_window_case(r: &mut Rng, out: &mut String) {
+    let key: u32 = *r.pick(&[0u32, 3]);
+    let base = key << 16;
+    let (wb, fillers): (u32, Vec<(u32, u32)>) = match r.below(3) {
+        0 => (0, vec![(20000, 24200)]),
+        1 => (1021, vec![(20000, 24200)]),
+        _ => (500, vec![(10000, 12100), (50000, 52100)]),
+    };
+    let lo = wb * 64;
+    let hi = lo + 192; // exclusive
+    let mut bits: Vec<u32> = Vec::new();
+    let dens = *r.pick(&[1u64, 2, 3]);
+    for i in lo..hi {
+        if r.below(4) < dens {
+            bits.push(i);
+        }
+    }
+    // always populate the window's first and last bit sometimes: word-edge cases
+    if r.chance(1, 2) && !bits.contains(&lo) {
+        bits.insert(0, lo);
+    }
+    if r.chance(1, 2) && !bits.contains(&(hi - 1)) {
+        bits.push(hi - 1);
+    }
+    writeln!(out, "new b0").unwrap();
+    let mut pre = 0u64;
+    let mut post = 0u64;
+    for &(s, e) in &fillers {
+        writeln!(out, "insert_range b0 in:{} ex:{}", base + s, base + e).unwrap();
+        if e <= lo {
+            pre += (e - s) as u64;
+        } else {
+            post += (e - s) as u64;
+        }
+    }
+    let mut s = String::new();
+    for x in &bits {
+        write!(s, " {}", base + x).unwrap();
+    }
+    writeln!(out, "extend b0{}", s).unwrap();
+    writeln!(out, "dump b0").unwrap();
+    let nset = bits.len() as u64;
+    let a = r.below(nset + 1);
+    let b = r.below(nset - a + 2).min(nset);
+    writeln!(out, "{} b0 i0", if r.chance(1, 2) { "iter" } else { "into_iter" }).unwrap();
+    // move the cursors with next/next_back-based or nth-based calls
+    if pre + a > 0 {
+        writeln!(out, "nth i0 {}", pre + a - 1).unwrap();
+    }
+    if post + b > 0 {
+        writeln!(out, "nth_back i0 {}", post + b - 1).unwrap();
+    }
+    if r.chance(1, 2) {
+        // pull the cursors one more step with the single-step calls (exhausts a word exactly at word edges)
+        writeln!(out, "next_back i0").unwrap();
+        writeln!(out, "next i0").unwrap();
+    }
+    writeln!(out, "size_hint i0").unwrap();
+    let t0 = lo.saturating_sub(2);
+    let t1 = (hi + 1).min(65535);
+    // one direction per case (keeps a case below ~1000 ops)
+    let fwd = r.chance(1, 2);
+    for t in t0..=t1 {
+        let tv = base + t;
+        writeln!(out, "iclone i0 i1").unwrap();
+        if fwd {
+            writeln!(out, "advance_to i1 {}", tv).unwrap();
+            writeln!(out, "size_hint i1").unwrap();
+            writeln!(out, "next i1").unwrap();
+            writeln!(out, "next_back i1").unwrap();
+        } else {
+            writeln!(out, "advance_back_to i1 {}", tv).unwrap();
+            writeln!(out, "size_hint i1").unwrap();
+            writeln!(out, "next_back i1").unwrap();
+            writeln!(out, "next i1").unwrap();
+        }
+    }
+    writeln!(out, "drain_fwd i0").unwrap();
+}
